@@ -385,9 +385,10 @@ func main() {
 	}
 	// added files
 	add := map[string]string{
-		"verifhook/hook.go":     filepath.Join(*repo, "verifhook", "hook.go"),
-		"mem_export_verif.go":   filepath.Join(*repo, "mem", "export_verif.go"),
-		"tar_export_verif.go":   filepath.Join(*repo, "tar", "export_verif.go"),
+		"verifhook/hook.go":   filepath.Join(*repo, "verifhook", "hook.go"),
+		"verifmt/mt.go":       filepath.Join(*repo, "verifmt", "mt.go"),
+		"mem_export_verif.go": filepath.Join(*repo, "mem", "export_verif.go"),
+		"tar_export_verif.go": filepath.Join(*repo, "tar", "export_verif.go"),
 	}
 	for src, dst := range add {
 		abs, _ := filepath.Abs(filepath.Join(*files, src))
